@@ -457,7 +457,11 @@ func (e *Engine) explore() {
 			if feasible[i] == Unknown {
 				e.ps.imprecise = true
 				e.res.Inconclusive++
-				e.res.InconcNotes["solver-unknown-at-branch:"+req.what]++
+				where := ""
+				if e.th != nil && e.th.top != nil {
+					where = "@" + e.th.top.fi.name
+				}
+				e.res.InconcNotes["solver-unknown-at-branch:"+req.what+where]++
 			}
 			e.assumeTerm(a.cond)
 			if !e.shardSkip() {
